@@ -158,6 +158,10 @@ def run(ck: Check) -> None:
                   Case("key", ["pub_equiv", bad, proto.KeyObj(False, Pub.to_bytes(P.from_bytes(seeds[6]).public_key()))], tag="equiv-bad-kind")]
     for bad in foreign:
         cases += [Case("sign", [{"signatures": {}, "signed": {"a": 1}}, bad], tag="bad-kind-sign")]
+    # a key object of the other kind: a private key where a public one is converted (and the other way round) is refused, never converted — least of all to its seed
+    kp_, kpub_ = proto.KeyObj(True, seeds[6]), proto.KeyObj(False, Pub.to_bytes(P.from_bytes(seeds[6]).public_key()))
+    for fn_, arg_ in (("pub_to_bytes", kp_), ("pub_to_hex", kp_), ("priv_to_bytes", kpub_), ("priv_to_hex", kpub_)):
+        cases.append(Case("key", [fn_, arg_], tag="other-kind-of-key"))
     # the same non-key object in both positions is no more a pair of equivalent keys than two different ones
     for same in [None, "x", h, seeds[6], 5, (1, 2)]:
         cases += [Case("key", ["priv_equiv", same, same], tag="bad-kind-equiv-same-object"), Case("key", ["pub_equiv", same, same], tag="bad-kind-equiv-same-object")]
@@ -169,6 +173,8 @@ def run(ck: Check) -> None:
         if r.case.tag == "conv-same-value-both-kinds" and r.case.args[0].split("_")[1] == "from" and not r.impl.startswith("V P" if r.case.args[0].startswith("priv") else "V K"):
             ck.violation("reading a 32-byte value as a key of one kind gave a key of the other kind (or failed) after the same value had been read as the other kind",
                          {"call": r.case.args[0], "value": proto.enc(r.case.args[1])[:140], "impl": r.impl[:80]}, f"conversion-kind:{r.case.args[0]}")
+        if r.case.tag == "other-kind-of-key" and r.impl.startswith("V "):
+            ck.violation("a conversion meant for one kind of key accepted a key object of the other kind", {"call": r.case.args[0], "returned": r.impl[:30] + "..."}, f"other-kind:{r.case.args[0]}")
         if r.case.tag == "equiv-kinds" and r.impl not in ("F", "E AttributeError"):
             ck.violation("keys of different kinds reported equivalent", {"impl": r.impl}, "equiv-kinds")
     # conversion compositions return the same value (implementation-side oracle)
